@@ -464,6 +464,22 @@ def _by_name_table_searches(fn: ast.AST, helpers: set):
                 if t:
                     out.append((c, t))
                     break
+        if isinstance(c, ast.DictComp) and len(c.generators) == 1 and isinstance(c.generators[0].target, ast.Name):
+            # a look-up table re-keyed by the entities' own names: `{v.name.lower(): v for v in <table>.values()}`
+            g = c.generators[0]
+            keyed_by_name = any(isinstance(a, ast.Attribute) and a.attr == "name" and isinstance(a.value, ast.Name)
+                                and a.value.id == g.target.id for a in ast.walk(c.key))
+            if keyed_by_name:
+                srcs = [g.iter] + astq.expand_locals(g.iter, fn)
+                for x in srcs:
+                    for y in ast.walk(x):
+                        t = _values_of_scope_table(y)
+                        if t:
+                            out.append((c, t))
+                            break
+                    else:
+                        continue
+                    break
         if isinstance(c, (ast.GeneratorExp, ast.ListComp)):
             for g in c.generators:
                 t = _values_of_scope_table(g.iter)
@@ -486,6 +502,10 @@ def bad2(self, n):
     return next((t for t in self.parent.all_types.values() if t.name.lower() == n), None)
 def good(self, n):
     return self.parent.all_types.get(n)
+def bad3(self, n):
+    in_scope = list(self.parent.all_vars.values())
+    table = {v.name.lower(): v for v in in_scope}
+    return table.get(n)
 """
 
 
@@ -505,7 +525,7 @@ def r10_tables_read_by_key(ctx, rep):
     ex = _P(ast.parse(_BY_NAME_EXAMPLE))
     helpers = _name_search_helpers(ex)
     got = {f.name: len(_by_name_table_searches(f, helpers)) for f in ex.fs}
-    if helpers != {"find"} or got != {"find": 0, "bad": 1, "bad2": 1, "good": 0}:
+    if helpers != {"find"} or got != {"find": 0, "bad": 1, "bad2": 1, "good": 0, "bad3": 1}:
         raise AnalysisError(f"tables_read_by_key: the matcher fails on its own example ({helpers}, {got})")
     helpers = _name_search_helpers(py)
     n = 0
